@@ -439,6 +439,14 @@ pub fn oneshot_strategy(_t: Tier) -> BoxedStrategy<OneShot> {
         prop::collection::vec(fault, 0..=2),
     )
         .prop_map(|(k, r, b, (shape, raw_o, raw_s), faults)| {
+            // 1 in 16: recovery_count on the 2-wide band around the envelope boundary for this original_count
+            // (unsupported pairs whose sum still fits), mostly with a complete set of originals
+            let (r, shape) = if raw_o % 32 == 5 && k >= 1 && k <= 64 {
+                let rb = crate::props::c08::r_bound(Kind::Rs, k as u128) as usize;
+                ((rb + (raw_o as usize >> 4) % 4).saturating_sub(1).max(1), if raw_s % 4 != 0 { 2 } else { shape })
+            } else {
+                (r, shape)
+            };
             let b = if raw_s % 32 == 7 && k <= 4 && r <= 4 { (1 << 20) + (raw_s as usize * 7919 % (1 << 21)) / 2 * 2 } else { tame(Kind::Rs, k, r, b).min(4096) };
             let kk = k.min(40);
             let rr = r.min(40);
